@@ -130,7 +130,14 @@ func runC19(r *Run) error {
 					return fmt.Errorf("load snapshot: %w", err)
 				}
 			} else {
-				if err := st2.Load(ctx, -1); err != nil {
+				// unlimited, or a limit that is not smaller than the log (the log is then complete
+				// and the status has to end at the entry count just the same)
+				amount := -1
+				if total := st.OpLog().Len(); how == "load" && total > 0 && r.Rng.Intn(2) == 0 {
+					amount = total + []int{0, 1, 2, 7}[r.Rng.Intn(4)]
+					r.Count("reopen:load-with-limit>=len")
+				}
+				if err := st2.Load(ctx, amount); err != nil {
 					return fmt.Errorf("load: %w", err)
 				}
 			}
